@@ -10,8 +10,8 @@ demo_path=$(grep -ohE 'flussab(-[a-z0-9]+)?/tests/demo[0-9]*_[a-z0-9_]+\.rs' "$d
 if [ -z "$demo_path" ]; then echo "RESULT $d NO-DEMO-PATH"; exit 1; fi
 crate=$(echo "$demo_path" | cut -d/ -f1); tname=$(basename "$demo_path" .rs)
 if ! git apply "$d/patch.diff" 2>/dev/null; then echo "RESULT $d PATCH-DOES-NOT-APPLY"; exit 1; fi
-if ! cargo test --workspace --no-fail-fast --offline >/tmp/confirm_suite.log 2>&1; then echo "RESULT $d SUITE-FAILS-WITH-PATCH"; git reset -q --hard HEAD; exit 1; fi
-npass=$(grep -E "^test result: ok" /tmp/confirm_suite.log | sed -E 's/.*ok\. ([0-9]+) passed.*/\1/' | paste -sd+ | bc)
+if ! cargo test --workspace --no-fail-fast --offline >$wt/../confirm_suite_$$.log 2>&1; then echo "RESULT $d SUITE-FAILS-WITH-PATCH"; git reset -q --hard HEAD; exit 1; fi
+npass=$(grep -E "^test result: ok" $wt/../confirm_suite_$$.log | sed -E 's/.*ok\. ([0-9]+) passed.*/\1/' | paste -sd+ | bc)
 mkdir -p "$crate/tests"; cp "$d/demo.rs" "$demo_path"
 cargo test -p "$crate" --test "$tname" --offline >/tmp/confirm_with.log 2>&1; with=$?
 git reset -q --hard HEAD   # removes the patch, keeps the untracked demo
